@@ -49,7 +49,7 @@ def run_job(arg):
         if l.startswith("#"):
             h = l[1:].split(" ", 1)[0]
             if h.isdigit():
-                got[int(h)] = l
+                got[int(h)] = l if int(h) not in got else got[int(h)] + "  ++REPORTED AGAIN++  " + l      # a case reports exactly once
     ref, steps = run_ref([(i, b) for i, _, b in progs])
     mism, unsup, outcomes, traces = [], 0, {}, set()
     for i, desc, body in progs:
